@@ -79,7 +79,11 @@ func (a *acceptChecker) evalLine(line string) (string, error) {
 	return feltHex(&v), nil
 }
 
-func (w *wbuf) bundle(b *lib.Bundle) {
+func (w *wbuf) bundle(b *lib.Bundle) { w.bundleWith(b, nil) }
+
+// bundleWith: classVals (optional) maps a Sierra class key to the value of the MODEL's class-hash term for its
+// definition (round 5: the accept verdict then depends on the model's SierraClass.Hash, not on the real one).
+func (w *wbuf) bundleWith(b *lib.Bundle, classVals map[felt.Felt]string) {
 	w.block(b.Block)
 	w.felt(b.SU.BlockHash)
 	w.felt(b.SU.NewRoot)
@@ -95,6 +99,13 @@ func (w *wbuf) bundle(b *lib.Bundle) {
 			w.tok("0")
 		default:
 			w.tok("0")
+			if v, ok := classVals[k]; ok {
+				if v == "~" {
+					v = "0"
+				}
+				w.tok(v)
+				continue
+			}
 			h, err := c.Hash()
 			if err != nil {
 				w.tok("0")
@@ -144,6 +155,35 @@ func (a *acceptChecker) modelVerdict(b *lib.Bundle, headNumber uint64, headHash 
 		}
 		bv = append(bv, v)
 	}
+	// the class hash of every Sierra definition, computed by the model (term evaluated with the real Poseidon)
+	classVals := map[felt.Felt]string{}
+	for k, def := range b.Classes {
+		sc, ok := def.(*core.SierraClass)
+		if !ok || sc.AbiHash == nil || sc.ProgramHash == nil {
+			continue
+		}
+		nilSel := false
+		for _, eps := range [][]core.SierraEntryPoint{sc.EntryPoints.External, sc.EntryPoints.L1Handler, sc.EntryPoints.Constructor} {
+			for _, ep := range eps {
+				if ep.Selector == nil {
+					nilSel = true
+				}
+			}
+		}
+		if nilSel {
+			continue
+		}
+		line := clsHashLine(classVersionLimited(), sc)
+		v, ok := a.cache[line]
+		if !ok {
+			var err error
+			if v, err = a.evalLine(line); err != nil {
+				return "", err
+			}
+			a.cache[line] = v
+		}
+		classVals[k] = v
+	}
 	var w wbuf
 	w.tok("accept")
 	w.net(net)
@@ -153,7 +193,7 @@ func (a *acceptChecker) modelVerdict(b *lib.Bundle, headNumber uint64, headHash 
 		w.u64(headNumber)
 		w.felt(headHash)
 	}
-	w.bundle(b)
+	w.bundleWith(b, classVals)
 	w.u64(uint64(len(tv)))
 	for _, v := range tv {
 		w.tok(v)
